@@ -198,6 +198,13 @@ func (x *Engine) guardFuncs(prop string, pkgs []*packages.Package) []string {
 						if gd := x.guards[g]; gd != nil && hasProp(gd.props, prop) {
 							touches = true
 						}
+						// ... or takes / releases one of the declared mutexes (a function that only locks and then calls a
+						// helper for the guarded access must be checked too: re-acquisition, lock order, balance)
+						for _, gd := range x.guards {
+							if (gd.mu == g || gd.alt == g) && hasProp(gd.props, prop) {
+								touches = true
+							}
+						}
 					}
 				}
 			}
